@@ -38,13 +38,26 @@ def nodes_of(spec):
     return nodes
 
 
-def observe(spec, cfg):
+def observe(spec, cfg, history=()):
     out = {}
     flat = sg.flatten(spec)
     for mode in ('fwd', 'rev'):
         c2 = dict(cfg, mode=mode)
         p = ob.build(spec, c2)
         p.run_model()
+        # a history of compute_totals calls with different of / wrt subsets on the SAME problem (each builds its
+        # own Relevance object), then the full set
+        names = ob.voi_names(spec)
+        hist = []
+        for of_idx, wrt_idx in history:
+            of = []
+            for k in of_idx:
+                if names['responses_src'][k] not in of:
+                    of.append(names['responses_src'][k])
+            wrt = [names['desvars'][k] for k in wrt_idx]
+            Jh = p.compute_totals(of=of, wrt=wrt, return_format='array')
+            hist.append(np.atleast_2d(Jh).tolist())
+        out['H' + mode] = hist
         out['J' + mode] = np.atleast_2d(ob.totals(p, spec, dict(c2, fmt='array', driver_scaling=False))).tolist()
         if mode == 'fwd':
             vals = []
@@ -97,14 +110,14 @@ def run_all(cases, with_sets):
     outs = []
     for c in cases:
         try:
-            o = observe(c['spec'], c['cfg'])
-            r = {'Jfwd': o['Jfwd'], 'Jrev': o['Jrev'], 'state': o['state']}
+            o = observe(c['spec'], c['cfg'], c.get('history', ()))
+            r = {'Jfwd': o['Jfwd'], 'Jrev': o['Jrev'], 'state': o['state'], 'Hfwd': o['Hfwd'], 'Hrev': o['Hrev']}
             if with_sets:
                 r['D'], r['A'] = real_sets(o['prob'], c['spec'])
         except AnalysisError:
             r = {'vacuous': True}
-        except Exception:
-            r = {'error': traceback.format_exc()[-1500:]}
+        except Exception as e:
+            r = {'error': traceback.format_exc()[-1500:], 'etype': type(e).__name__ + ':' + str(e)[:60]}
         outs.append(r)
     return outs
 
@@ -140,24 +153,38 @@ def main():
         a = on[k]
         b = off[k] if off is not None else {'error': 'relevance-off subprocess failed: ' + pr.stdout.decode()[-800:]}
         r = {'res': '__none__', 'ok': True, 'msg': '', 'sig': '', 'kind': c.get('kind', ''), 'exact': True}
-        if 'error' in a or 'error' in b:
-            r.update(ok=False, sig='harness-exception', msg=(a.get('error') or b.get('error')))
+        if 'error' in a and 'error' in b and a.get('etype') == b.get('etype'):
+            # the model is rejected in the same way with relevance on and off: nothing to compare
+            r['kind'] += ':both-raise'
+            r['vacuous'] = 1
+            r['both_raise'] = a.get('etype')
+        elif 'error' in a or 'error' in b:
+            r.update(ok=False, sig='relevance:raises-on-one-side' if ('error' in a) != ('error' in b)
+                     else 'harness-exception',
+                     msg='relevance on: %s | relevance off: %s' % (a.get('error', 'ok')[-700:], b.get('error', 'ok')[-700:]))
         elif a.get('vacuous') or b.get('vacuous'):
             r['kind'] += ':vacuous'
             r['vacuous'] = 1
         else:
-            exact = c['cfg'].get('lin') == 'runonce' and not c['spec']['coupled']
+            exact = c['cfg'].get('lin') == 'runonce' and not c['spec']['coupled'] and not c['cfg'].get('approx')
             slack = 0.0
             if not exact:
                 # both runs met the iterative solvers' absolute tolerance; their solutions may differ by twice the
                 # corresponding error bound
                 ex = sg.exact_all(sg.flatten(c['spec']))
                 slack = 2 * sg.solver_slack(ex) if ex is not None else 0.0
-            for key, what in (('Jfwd', 'total derivatives (fwd)'), ('Jrev', 'total derivatives (rev)'),
-                              ('state', 'converged outputs / responses')):
-                good, why = same(a[key], b[key], exact, slack)
+            items = [('Jfwd', 'total derivatives (fwd)', a['Jfwd'], b['Jfwd']),
+                     ('Jrev', 'total derivatives (rev)', a['Jrev'], b['Jrev']),
+                     ('state', 'converged outputs / responses', a['state'], b['state'])]
+            for m in ('fwd', 'rev'):
+                for k, (ha, hb) in enumerate(zip(a['H' + m], b['H' + m])):
+                    items.append(('H' + m, 'total derivatives (%s) of call %d of the history %s' % (
+                        m, k, c['history'][k]), ha, hb))
+            for key, what, va, vb in items:
+                good, why = same(va, vb, exact, slack)
                 if not good and r['ok']:
-                    r.update(ok=False, sig='relevance:%s:%s' % (key, c['cfg'].get('lin')),
+                    r.update(ok=False, sig='relevance:%s:%s%s' % (key, c['cfg'].get('lin'),
+                                                                ':approx_totals' if c['cfg'].get('approx') else ''),
                              msg='%s differ with relevance on / off (%s): %s | cfg=%s' % (
                                  what, 'exact' if exact else 'tol 1e-9', why, c['cfg']))
             r['res'] = [a['D'], a['A']]
